@@ -641,6 +641,8 @@ def build_grammar(case, rng: common.Rng):
     g = GrammarFactory().create(gtype, name="g")
     ops = case.get("ops")
     if ops is None:
+        # (their own generator: a replay, which has the ops, must leave `rng` in the same state as the first run)
+        rng = common.make_rng(int(case.get("seed", 0)), "c20-gr-ops")
         ops = []
         names = ["a", "b", "c", "d", "e"]
         edits = ["names", "types", "data", "required", "defaults", "ns", "del", "merge", "rename", "restrict"]
